@@ -64,9 +64,11 @@ func cmdFaults(args []string) int {
 	}
 	shapes := []shape{{KAttest, 1}, {KAttests, 1}, {KAttests, 3}, {KPropose, 1}, {KSign, 1}, {KMultisign, 3}}
 
+	var lastRec *StepRec
 	exec := func(op *Op, special string, label string) bool {
 		var rec *StepRec
 		var err error
+		defer func() { lastRec = rec }()
 		switch special {
 		case "closed":
 			pre, e := inst.ReadStore(ctx)
@@ -147,6 +149,32 @@ func cmdFaults(args []string) int {
 					}
 				}
 			}
+			// no signing root can be computed: the domain has the endpoint's type but not 32 bytes
+			for pos := 0; pos < sh.n; pos++ {
+				for _, delta := range []int{1, -1} {
+					op := mkOp(sh.kind, sh.n)
+					bad := func(d []byte) []byte {
+						if delta > 0 {
+							return append(append([]byte{}, d...), 0xee)
+						}
+						return append([]byte{}, d[:31]...)
+					}
+					switch sh.kind {
+					case KAttest, KAttests:
+						op.Atts[pos].Dom = bad(op.Atts[pos].Dom)
+					case KPropose:
+						op.Props[pos].Dom = bad(op.Props[pos].Dom)
+					default:
+						op.Signs[pos].Dom = bad(op.Signs[pos].Dom)
+					}
+					if !exec(op, "", "domain-length") {
+						return 2
+					}
+					if lastRec != nil && pos < len(lastRec.Obs) && lastRec.Obs[pos].SigLen > 0 {
+						monFail = append(monFail, fmt.Sprintf("a signature was released at position %d although no signing root exists for a domain of %d bytes :: %s", pos, 32+delta, describeStep(lastRec)))
+					}
+				}
+			}
 			// ruler answers
 			rulerLists := [][]rules.Result{}
 			for _, r := range []rules.Result{rules.UNKNOWN, rules.FAILED, rules.DENIED, rules.APPROVED} {
@@ -189,6 +217,9 @@ func cmdFaults(args []string) int {
 					op.Fault.Fetch = []int{pos}
 					// the batch path stops at the first failing fetch; later positions are not fetched
 					ok := exec(op, "corrupt", "undecodable-record")
+					if ok && lastRec != nil && pos < len(lastRec.Obs) && lastRec.Obs[pos].SigLen > 0 {
+						monFail = append(monFail, fmt.Sprintf("a signature was released at position %d although the protection record of that key cannot be decoded :: %s", pos, describeStep(lastRec)))
+					}
 					// repair the record with a low watermark so that later duties advance
 					var val []byte
 					if action == 2 {
